@@ -37,21 +37,27 @@ pub fn cases(args: &[String]) {
         let e = ExpRestricted01::new(lambda);
         let (_, c1, c2, c3) = consts(&e);
         for _ in 0..n {
-            // a script of unit draws aimed at the different branches
+            // a script of unit draws aimed at the different branches; it is extended (same prefix) until the
+            // sampler stops inside it, so that the model never sees a truncated script
             let mut us: Vec<f64> = Vec::new();
             let first = if rng.coin(0.3) { rng.unit() / c1 } else { (1.0 / c1) + rng.unit() * (1.0 - 1.0 / c1) };
             us.push(first);
-            for _ in 0..12 {
-                let x = match rng.below(5) { 0 => rng.unit() * c2, 1 => c2 + rng.unit() * (1. - c2), 2 => 1.0 - rng.unit() * 1e-3, 3 => 0.5 + rng.unit() * 0.5, _ => rng.unit() };
-                let y = match rng.below(4) { 0 => rng.unit() * 1e-3, 1 => 1.0 - rng.unit() * 1e-3, _ => rng.unit() };
-                us.push(x);
-                us.push(y);
-            }
-            let raws: Vec<u64> = us.iter().map(|x| raw_of_unit(*x)).collect();
-            let units: Vec<f64> = raws.iter().map(|r| unit_of(*r)).collect();
-            let mut srng = ScriptRng { vals: raws.clone(), pos: 0 };
-            let r = e.sample(&mut srng);
-            let used = srng.pos;
+            let (raws, units, r, used) = loop {
+                for _ in 0..12 {
+                    let x = match rng.below(5) { 0 => rng.unit() * c2, 1 => c2 + rng.unit() * (1. - c2), 2 => 1.0 - rng.unit() * 1e-3, 3 => 0.5 + rng.unit() * 0.5, _ => rng.unit() };
+                    let y = match rng.below(4) { 0 => rng.unit() * 1e-3, 1 => 1.0 - rng.unit() * 1e-3, _ => rng.unit() };
+                    us.push(x);
+                    us.push(y);
+                }
+                let raws: Vec<u64> = us.iter().map(|x| raw_of_unit(*x)).collect();
+                let units: Vec<f64> = raws.iter().map(|r| unit_of(*r)).collect();
+                let mut srng = ScriptRng { vals: raws.clone(), pos: 0 };
+                let r = e.sample(&mut srng);
+                if srng.pos <= raws.len() || us.len() > 4000 {
+                    break (raws, units, r, srng.pos);
+                }
+            };
+            let _ = &raws;
             // oracle of the third test, by walking the loop on the same draws
             let mut b3s: Vec<bool> = Vec::new();
             if !(c1 * units[0] < 1.) {
